@@ -12,7 +12,9 @@ READERS = [{"kind": "slice"}, {"kind": "chunks", "sched": [1]}, {"kind": "chunks
            {"kind": "bufreader", "cap": 7}, {"kind": "bufreader", "cap": 8192}, {"kind": "chunks", "sched": [3, 1, 2]},
            # the other entry points: Reader::deserialize() (iterator) and deserialize_next::<T>() with an owned target
            {"kind": "slice", "api": "iter"}, {"kind": "bufreader", "cap": 5, "api": "iter"}, {"kind": "chunks", "sched": [2], "api": "typed"},
-           {"kind": "slice", "api": "typed"}]
+           {"kind": "slice", "api": "typed"},
+           # the entry points only a slice reader has: deserialize_next_borrowed::<T>() and the iterator deserialize_borrowed::<T>()
+           {"kind": "slice", "api": "borrowed"}, {"kind": "slice", "api": "borrowed_iter"}]
 
 
 def model_check():
@@ -74,6 +76,8 @@ def run(tier, seed):
                     c = container.writer_cmd(zg, cd, approx, ops, cid=len(wcmds))
                     zero_value[len(wcmds)] = zv
                     wcmds.append(c)
+    for c in wcmds[1::3]:
+        c["owned_config"] = True        # WriterBuilder::with_owned_config instead of a borrowed configuration
     wobs = common.run_harness(wcmds, per_cmd_timeout=60)
     rcmds, rmeta = [], []
     for c, o in zip(wcmds, wobs):
@@ -103,6 +107,31 @@ def run(tier, seed):
         exp_vals = [zero_value[wc["id"]]] * len(written) if wc["id"] in zero_value else expected_values(G, wc, written, pushed_vals)
         ev = read_event(exp_vals, o["results"])
         events.append(ev)
+        owners.append((wc, rc["reader"], o))
+    # ---- the one-call entry point write_all (default block size, library-chosen sync marker), every codec, read back
+    wa_vals = [container.item_value(1, ""), container.item_value(-300, "xxxxxxxxxx", 9), container.item_value(1 << 40, "write_all", None)]
+    wa_cmds = []
+    for cd in container.CODECS:
+        for n in (0, 1, 7):
+            vs = [wa_vals[i % 3] for i in range(n)]
+            wa_cmds.append({"op": "write_all", "id": len(wa_cmds), "schema": {"nodes": G}, "codec": cd, "pres_list": [container.item_pres(G, v) for v in vs], "_vals": vs})
+    wa_obs = common.run_harness([{k: v for k, v in c.items() if k != "_vals"} for c in wa_cmds], per_cmd_timeout=60)
+    wa_r, wa_m = [], []
+    for c, o in zip(wa_cmds, wa_obs):
+        if o.get("res") != "ok":
+            rep.violation(f"write_all failed (codec {c['codec']}, {len(c['_vals'])} values): {o.get('res')} {str(o.get('msg', ''))[:160]}",
+                          {"fam": "write_all", "cmd": {k: v for k, v in c.items() if k != "_vals"}}, expected="Ok(file)", observed=o)
+            continue
+        for rd in (READERS[0], READERS[1 + c["id"] % (len(READERS) - 1)]):
+            wa_r.append({"op": "reader", "id": len(wa_r), "bytes": o["sink"], "reader": rd, "calls": len(c["_vals"]) + 3})
+            wa_m.append(c)
+    for rc, c, o in zip(wa_r, wa_m, common.run_harness(wa_r, per_cmd_timeout=60)):
+        wc = {"id": -1 - c["id"], "codec": c["codec"], "level": None, "approx": "write_all"}
+        if o.get("res") != "ok" or o.get("init") != "ok":
+            rep.violation(f"the reader could not open a file write_all produced (codec {c['codec']}): {o.get('msg', o.get('res'))}",
+                          {"fam": "write_all", "cmd": {k: v for k, v in c.items() if k != "_vals"}}, observed=o)
+            continue
+        events.append(read_event(c["_vals"], o["results"]))
         owners.append((wc, rc["reader"], o))
     # ---- the same reads, state by state, against the reader machine (ContainerReader.tla / Trace_ReaderImpl): the block structure
     #      comes from walking each written file
